@@ -109,6 +109,66 @@ impl Hist {
         }
     }
 
+    /// the getters that reflect the flow-control state, as
+    /// (is_closed, is_connected, publication_limit(), available_window(), position(), term_id, term_offset);
+    /// the last two are the exclusive publication's own cursor (0 for the shared publication)
+    pub fn getters(&self) -> String {
+        fn b(v: bool) -> i64 {
+            if v {
+                1
+            } else {
+                0
+            }
+        }
+        match &self.p {
+            Pubn::S(p) => format!(
+                "({}, {}, {}, {}, {}, 0, 0)",
+                b(p.is_closed()),
+                b(p.is_connected()),
+                fmt_result(catch(|| p.publication_limit())),
+                fmt_result(catch(|| p.available_window())),
+                fmt_result(catch(|| p.position()))
+            ),
+            Pubn::X(p) => format!(
+                "({}, {}, {}, {}, {}, {}, {})",
+                b(p.is_closed()),
+                b(p.is_connected()),
+                fmt_result(catch(|| p.publication_limit())),
+                fmt_result(catch(|| p.available_window())),
+                fmt_result(catch(|| p.position())),
+                p.term_id(),
+                p.term_offset()
+            ),
+        }
+    }
+
+    /// the getters fixed at construction:
+    /// [max_message_length; max_payload_length; term_buffer_length; position_bits_to_shift; initial_term_id; session_id; stream_id]
+    pub fn statics(&self) -> String {
+        match &self.p {
+            Pubn::S(p) => format!(
+                "[{}; {}; {}; {}; {}; {}; {}]",
+                p.max_message_length(),
+                p.max_payload_length(),
+                p.term_buffer_length(),
+                p.position_bits_to_shift(),
+                p.initial_term_id(),
+                p.session_id(),
+                p.stream_id()
+            ),
+            Pubn::X(p) => format!(
+                "[{}; {}; {}; {}; {}; {}; {}]",
+                p.max_message_length(),
+                p.max_payload_length(),
+                p.term_buffer_length(),
+                p.position_bits_to_shift(),
+                p.initial_term_id(),
+                p.session_id(),
+                p.stream_id()
+            ),
+        }
+    }
+
     pub fn log_delta(&mut self) -> String {
         let d0 = changed_words(&self.log.term(0), &mut self.prev[0]);
         let d1 = changed_words(&self.log.term(1), &mut self.prev[1]);
@@ -228,4 +288,22 @@ pub fn run_history(spec: &str) -> String {
         out.push(hist.observe(r));
     }
     format!("[{}]", out.join("; "))
+}
+
+/// runs a history and reports the getters instead of the log: (statics, [getters at hand-over; getters after op 1; ...])
+pub fn run_getters(spec: &str) -> String {
+    let (head, ops) = spec.split_once('|').unwrap_or((spec, ""));
+    let h: Vec<&str> = head.split_whitespace().collect();
+    let g: Vec<i64> = h[1..].iter().map(|x| x.parse::<i64>().unwrap_or_else(|_| panic!("bad int {}", x))).collect();
+    let mut hist = Hist::new(h[0], g[0] as i32, g[1] as i32, g[2] as i32, g[3] as i32, g[4] as i32);
+    let mut out: Vec<String> = vec![hist.getters()];
+    for op in ops.split(';') {
+        let op = op.trim();
+        if op.is_empty() {
+            continue;
+        }
+        let _ = hist.step(op);
+        out.push(hist.getters());
+    }
+    format!("({}, [{}])", hist.statics(), out.join("; "))
 }
